@@ -263,7 +263,9 @@ def r07_5(chk):
     src = [norm(s) for s in fn.body if not isinstance(s, ast.Expr)]
     want = ['%s,used_cols=remove_null_cols(%s,silent=silent)' % (a, a), 'px=spsolve(%s,%s[used_cols],**kwargs)' % (a, b),
             'x=np.zeros(%s.shape[0],dtype=%s.dtype)' % (b, b), 'x[used_cols]=px', 'returnx']
-    chk.ob('R07.5', src == want, SPARSE, 'solve', 'reduce, solve, scatter through the same index set', expected=want, got=src,
+    alloc_ok = {'x=np.zeros(%s.shape[0],dtype=%s.dtype)' % (b, b), 'x=np.zeros_like(%s)' % b, 'x=np.zeros(%s.shape,dtype=%s.dtype)' % (b, b), 'x=np.zeros(len(%s),dtype=%s.dtype)' % (b, b)}
+    ok = len(src) == 5 and src[0] == want[0] and src[1] == want[1] and src[2] in alloc_ok and src[3:] == want[3:]
+    chk.ob('R07.5', ok, SPARSE, 'solve', 'reduce, solve, scatter through the same index set', expected=want, got=src,
            sample='solve: ' + '; '.join(src))
     # remove_null_cols: used_cols = unique(cols) of the first matrix; every matrix reduced by rows and columns
     rn = m.function('remove_null_cols')
